@@ -123,4 +123,46 @@ def decodeAll (minBuf minRead : Nat) : Nat → St → List Out
     | .value .. => o :: decodeAll minBuf minRead limit s'
     | _ => [o]
 
+/-! ## InputOffset / Buffered / Parse (second half of C11)
+
+`readValue` above already mirrors the offset accounting of the Go code: `dec.inputOffset += len(v) + n` when a value is
+accepted (`n` = white space skipped after it INSIDE the window), `dec.inputOffset += n` after every refill (`n` = white
+space skipped at the head of the refilled buffer; the window kept by the compaction starts with a non-space byte, so this
+is non-zero only when the window was empty), nothing on the error paths. -/
+
+-- go: json.(*Decoder).InputOffset
+def St.inputOffset (s : St) : Nat := s.offset
+
+-- go: json.(*Decoder).Buffered   (`bytes.NewReader(dec.remain)`)
+def St.buffered (s : St) : Bytes := s.remain
+
+/-- `Decode` called repeatedly, each call's outcome together with the decoder state AFTER it (from which `InputOffset` and
+`Buffered` are read). Values do not count; the run ends with the `extra + 1`-th call that does not return a value (at most
+`limit` calls): `extra = 0` is the loop of `decodeAll`, `extra > 0` keeps calling a Decoder that has already failed. -/
+def decodeCalls (minBuf minRead : Nat) : Nat → Nat → St → List (Out × St)
+  | 0, _, _ => []
+  | limit + 1, extra, s =>
+    let (o, s') := readValue minBuf minRead (pendingBytes s.reader + s.reader.length + 8) s
+    match o with
+    | .value .. => (o, s') :: decodeCalls minBuf minRead limit extra s'
+    | _ =>
+      match extra with
+      | 0 => [(o, s')]
+      | e + 1 => (o, s') :: decodeCalls minBuf minRead limit e s'
+
+/-- outcome of `Parse` as far as the remainder is concerned -/
+inductive ParseOut where
+  | ok (rem : Bytes)          -- `err == nil`; the remainder returned
+  | err                       -- a syntax error (the remainder then returned is where the scanner stopped, white space skipped;
+                              -- the scanner model keeps only its emptiness, so it is not an observable here)
+  deriving DecidableEq, Repr
+
+-- go: json.Parse  → json.decoder.parse, syntax layer (target `*RawMessage`, or a non-pointer target where the
+-- error is `InvalidUnmarshalError` instead): `b = skipSpaces(b)`; parseValue; `return skipSpaces(r), err`
+def parseRem (b : Bytes) : ParseOut :=
+  let b0 := skipSpaces b
+  match parseValue (internalParseFlags b) 0 (fuelFor b0) b0 with
+  | .ok _ r => .ok (skipSpaces r)
+  | .err _ => .err
+
 end Enc.Model.Json.Stream
